@@ -19,6 +19,7 @@ import (
 	"math"
 	"sort"
 	"strings"
+	"sync"
 
 	"github.com/EliCDavis/polyform/modeling"
 	"github.com/EliCDavis/polyform/modeling/triangulation"
@@ -78,16 +79,25 @@ func c20Canon(tris [][3]int) string {
 	return sb.String()
 }
 
-// c20Run calls the implementation on a private copy (cap == len: the function appends to its argument).
-func c20Run(p c20pts) (tris [][3]int, pos []float64, panicked bool) {
+// c20Run calls the implementation on a copy of the points that — like a slice a caller built with append — has SPARE
+// CAPACITY (0, 3, 8 or 1 extra slots, by length): the function appends to its argument, so anything it then does to "its"
+// slice lands in the caller's backing array. The oracles judge against `p`, which the implementation never sees;
+// `after` is the caller's slice re-read after the call (must be bit-identical to `p`).
+func c20Run2(p c20pts) (tris [][3]int, pos []float64, after c20pts, panicked bool) {
 	defer func() {
 		if r := recover(); r != nil {
 			panicked = true
 		}
 	}()
-	cp := make(c20pts, len(p), len(p))
+	spare := []int{0, 3, 8, 1}[len(p)%4]
+	backing := make(c20pts, len(p)+spare)
+	for i := range backing {
+		backing[i] = vector2.New(-12345.678, 98765.4321)
+	}
+	cp := backing[:len(p)]
 	copy(cp, p)
 	var m modeling.Mesh = triangulation.BowyerWatson(cp)
+	after = append(c20pts{}, cp...)
 	ind := m.Indices()
 	for i := 0; i+2 < ind.Len(); i += 3 {
 		tris = append(tris, [3]int{ind.At(i), ind.At(i + 1), ind.At(i + 2)})
@@ -100,6 +110,11 @@ func c20Run(p c20pts) (tris [][3]int, pos []float64, panicked bool) {
 		v := ps.At(i)
 		pos = append(pos, v.X(), v.Y(), v.Z())
 	}
+	return
+}
+
+func c20Run(p c20pts) (tris [][3]int, pos []float64, panicked bool) {
+	tris, pos, _, panicked = c20Run2(p)
 	return
 }
 
@@ -126,11 +141,12 @@ func (c *Ctx) c20Oracle(gen string, p c20pts) {
 	if h := c20Height(p); h <= 2/18.5 {
 		c.Note("height<=2/18.5")
 	}
-	tris, pos, pan := c20Run(p)
+	tris, pos, after, pan := c20Run2(p)
 	if pan {
 		c.Emit("c20.holds.indices", cls+" "+c20PtsStr(p)+" 0", "panic")
 		return
 	}
+	c.Emit("c20.holds.input_unchanged", cls+" "+c20PtsStr(p)+" "+c20PtsStr(after), "true")
 	c.Note("class." + cls)
 	c.Note(c20Bucket(len(p)))
 	if len(tris) == 0 {
@@ -365,6 +381,129 @@ func c20IntInCircle(a, b, d, p [2]int) int {
 	return (ax*ax+ay*ay)*(bx*cy-cx*by) - (bx*bx+by*by)*(ax*cy-cx*ay) + (cx*cx+cy*cy)*(ax*by-bx*ay)
 }
 
+// c20Wheel: ONE insertion that invalidates a large cavity — 60-400 jittered rim points (shuffled) on a circle of radius R at
+// an offset, and the hub inserted LAST: every rim triangle's circumcircle contains the hub.
+func (c *Ctx) c20Wheel() c20pts {
+	rim := 67 + c.Rng.Intn(64)
+	if c.Tier == "thorough" && c.Rng.Intn(3) == 0 {
+		rim = 130 + c.Rng.Intn(271)
+	}
+	if c.Rng.Intn(6) == 0 {
+		rim = 60 + c.Rng.Intn(8) // around the 64-triangle mark
+	}
+	R := []float64{1, 1e-3, 1e3, 37.5}[c.Rng.Intn(4)]
+	ox, oy := 0., 0.
+	switch c.Rng.Intn(4) {
+	case 0:
+		ox, oy = -300*R, 700*R
+	case 1:
+		ox, oy = 1e4*R, -2e3*R
+	}
+	p := make(c20pts, 0, rim+1)
+	for i := 0; i < rim; i++ {
+		a := (float64(i) + 0.6*(c.Rng.Float64()-0.5)) * 2 * math.Pi / float64(rim)
+		// radial jitter 1e-6·R: far above float noise in the in-circle test (≈ 1e-16), far below θ²·R, so that every rim
+		// triangle's circumcircle stays close to the rim circle and contains the hub: the cavity is (nearly) the whole wheel
+		r := R * (1 + 2e-6*(c.Rng.Float64()-0.5))
+		p = append(p, vector2.New(ox+r*math.Cos(a), oy+r*math.Sin(a)))
+	}
+	c.Rng.Shuffle(len(p), func(i, j int) { p[i], p[j] = p[j], p[i] })
+	p = append(p, vector2.New(ox+R*0.02*(c.Rng.Float64()-0.5), oy+R*0.02*(c.Rng.Float64()-0.5)))
+	return p
+}
+
+// geometric oracles for an already computed result
+func (c *Ctx) c20EmitGeom(cls string, p c20pts, tris [][3]int) {
+	var ts strings.Builder
+	fmt.Fprintf(&ts, "%d", len(tris))
+	for _, t := range tris {
+		fmt.Fprintf(&ts, " %d %d %d", t[0], t[1], t[2])
+		for _, v := range t {
+			if v < 0 || v >= len(p) {
+				c.Emit("c20.holds.indices", cls+" "+fmt.Sprint(len(p))+" 1 "+fmt.Sprintf("%d %d %d", t[0], t[1], t[2]), "true")
+				return
+			}
+		}
+	}
+	pts := c20PtsStr(p)
+	c.Emit("c20.holds.winding", cls+" "+pts+" "+ts.String(), "true")
+	c.Emit("c20.holds.delaunay", cls+" "+pts+" "+ts.String(), "true")
+	c.Emit("c20.holds.no_overlap", cls+" "+pts+" "+ts.String(), "true")
+}
+
+func c20TrisStr(tris [][3]int) string {
+	var ts strings.Builder
+	fmt.Fprintf(&ts, "%d", len(tris))
+	for _, t := range tris {
+		fmt.Fprintf(&ts, " %d %d %d", t[0], t[1], t[2])
+	}
+	return ts.String()
+}
+
+// c20Concurrent: several BowyerWatson calls IN FLIGHT AT ONCE on independent inputs (package-level state shared between
+// calls is invisible to any sequential history). Every concurrent result must be the same triangle set as the sequential
+// result of the same input (compared by the driver) and unchanged input; results that differ also go to the exact judges.
+func (c *Ctx) c20Concurrent(rounds int) {
+	const G = 8
+	inputs := make([]c20pts, G)
+	seq := make([][][3]int, G)
+	for i := range inputs {
+		switch i % 4 {
+		case 0:
+			inputs[i] = c.c20Uniform(30+c.Rng.Intn(40), 10, 10)
+		case 1:
+			inputs[i] = c.c20Clustered(30 + c.Rng.Intn(40))
+		case 2:
+			inputs[i] = c.c20Wheel()[:]
+		default:
+			inputs[i] = c20Map(c.c20Uniform(20+c.Rng.Intn(30), 10, 10), 1e3, -500, 250)
+		}
+		seq[i], _, _ = c20Run(inputs[i])
+	}
+	type res struct {
+		tris  [][3]int
+		after c20pts
+		pan   bool
+	}
+	differ := 0
+	for r := 0; r < rounds; r++ {
+		out := make([]res, G)
+		start := make(chan struct{})
+		var wg sync.WaitGroup
+		for g := 0; g < G; g++ {
+			wg.Add(1)
+			go func(g int) {
+				defer wg.Done()
+				<-start
+				t, _, a, pan := c20Run2(inputs[g])
+				out[g] = res{t, a, pan}
+			}(g)
+		}
+		close(start)
+		wg.Wait()
+		for g := 0; g < G; g++ {
+			if out[g].pan {
+				c.Emit("c20.holds.same_as_sequential", "concurrent 0 0", "panic")
+				continue
+			}
+			c.Emit("c20.holds.same_as_sequential", "concurrent "+c20TrisStr(seq[g])+" "+c20TrisStr(out[g].tris), "true")
+			if c20Canon(out[g].tris) != c20Canon(seq[g]) {
+				differ++
+				if differ <= 6 {
+					c.c20EmitGeom("concurrent", inputs[g], out[g].tris)
+					c.Emit("c20.holds.input_unchanged", "concurrent "+c20PtsStr(inputs[g])+" "+c20PtsStr(out[g].after), "true")
+				}
+			}
+		}
+		if r == 0 {
+			for g := 0; g < G; g++ {
+				c.c20EmitGeom("concurrent", inputs[g], out[g].tris)
+			}
+		}
+	}
+	c.Note(fmt.Sprintf("concurrent.rounds=%d.goroutines=%d", rounds, G))
+}
+
 func c20Map(p c20pts, s, ox, oy float64) c20pts {
 	q := make(c20pts, len(p))
 	for i, v := range p {
@@ -426,10 +565,27 @@ func runC20(c *Ctx) {
 	// the minimal failing input of the small-height defect (notes/C20.md)
 	c.c20Oracle("smallheight", c20pts{vector2.New(0.6, 0.), vector2.New(0.7, 0.105), vector2.New(0.9, 0.105), vector2.New(0.3, 0.005)})
 
+	// fixed wheels right at the 64-triangle mark (67 and 70 rim points, hub last)
+	for _, rim := range []int{67, 70} {
+		w := make(c20pts, 0, rim+1)
+		for i := 0; i < rim; i++ {
+			a := (float64(i) + 0.3*math.Sin(float64(7*i))) * 2 * math.Pi / float64(rim)
+			r := 1 + 1e-6*math.Cos(float64(11*i))
+			w = append(w, vector2.New(r*math.Cos(a), r*math.Sin(a)))
+		}
+		w = append(w, vector2.New(0.003, -0.002))
+		c.c20Oracle("wheel", w)
+	}
+	rounds := 25
+	if c.Tier == "thorough" {
+		rounds = 200
+	}
+	c.c20Concurrent(rounds)
+
 	for k := 0; k < c.N; k++ {
 		n := c.c20Size()
 		// ---- oracle lines on general-position (random float) inputs
-		switch k % 17 {
+		switch k % 18 {
 		case 0, 1:
 			c.c20Oracle("uniform", c.c20Uniform(n, 10, 10))
 		case 2:
@@ -526,6 +682,9 @@ func runC20(c *Ctx) {
 			}
 			sc := []float64{1e-7, 1e-7, 1e-9, 1e7}[c.Rng.Intn(4)]
 			c.c20Oracle("scaled7", c20Map(c.c20Uniform(n, 10, 10), sc, 0, 0))
+		case 17:
+			// one insertion with a large cavity: wheel, hub last
+			c.c20Oracle("wheel", c.c20Wheel())
 		}
 		// ---- model lines on small-integer inputs (exact float arithmetic)
 		m := 3 + c.Rng.Intn(23)
